@@ -184,8 +184,12 @@ class Report:
         ev = dict(property_id=self.pid, tier=self.tier, seed=self.seed, level=self.level,
                   coverage=cov, assumptions=self.assumptions, wall_s=round(wall, 3),
                   violations=len(violations))
-        os.makedirs(os.path.join(VERIF, "evidence"), exist_ok=True)
-        with open(os.path.join(VERIF, "evidence", self.pid + ".json"), "w") as f:
+        # evidence describes /repo itself: a run against another tree (PYREX_REPO: mutants, seeded changes) must not
+        # overwrite it
+        evdir = os.path.join(VERIF, "evidence") if os.path.realpath(REPO) == "/repo" else \
+            os.environ.get("PYVC_EVIDENCE_DIR", os.path.join("/tmp", "pyvc_evidence_%d" % os.getpid()))
+        os.makedirs(evdir, exist_ok=True)
+        with open(os.path.join(evdir, self.pid + ".json"), "w") as f:
             json.dump(ev, f, indent=1, sort_keys=True, default=str)
         for ln in lines:
             print(ln)
